@@ -56,7 +56,11 @@ def parseInitialState (initial : String) : Option Parser.CreateReq :=
       match Parser.decodeCreate j, (GoJson.topObject j).bind fun top => GoJson.str top "type" with
       | some c, some ty =>
         match transformValue (createRequestJson ty c) with
-        | some canon => if b64EncodeStr (bytesOfString (String.ofList canon)) = initial then some c else none
+        | some canon =>
+          if b64EncodeStr (bytesOfString (String.ofList canon)) = initial then
+            -- the type member is optional, but if present it says create
+            (if ty = "" ∨ ty = "create" then some c else none)
+          else none
         | none => none
       | _, _ => none
 
